@@ -41,6 +41,19 @@ class Fn:
                 out.append((ex, f))
         return out
 
+    def reach(self, typ, pred: Callable[[Fact], bool]):
+        """Path condition of a fact: OR over the configurations in which it is emitted of the conjunction of the
+        python-level decisions of that configuration (captures early-return idioms that frames do not show)."""
+        alts = []
+        for ex in self.exs:
+            if any(pred(f) for f in ex.of(typ)):
+                parts = []
+                for t, v in ex.config:
+                    g = to_formula(t)
+                    parts.append(g if v else f_not(g))
+                alts.append(f_and(*parts))
+        return f_or(*alts)
+
     def only(self, typ, pred, rule: str, what: str):
         fs = self.facts(typ, pred)
         if not fs:
